@@ -134,6 +134,11 @@ func (c *twistPoint) Add(a, b *twistPoint) {
 
 func (c *twistPoint) Double(a *twistPoint) {
 	// See http://hyperelliptic.org/EFD/g1p/auto-code/shortw/jacobian-0/doubling/dbl-2009-l.op3
+
+	// z3 = 2·y1·z1 reads a.y, which is overwritten below when c aliases a
+	// (Add ends in c.Double(a) with c == a for p.Add(p, q) and p == q).
+	yz := (&gfP2{}).Mul(&a.y, &a.z)
+
 	A := (&gfP2{}).Square(&a.x)
 	B := (&gfP2{}).Square(&a.y)
 	C := (&gfP2{}).Square(B)
@@ -157,8 +162,7 @@ func (c *twistPoint) Double(a *twistPoint) {
 	t2.Mul(e, &c.y)
 	c.y.Sub(t2, t)
 
-	t.Mul(&a.y, &a.z)
-	c.z.Add(t, t)
+	c.z.Add(yz, yz)
 }
 
 func (c *twistPoint) Mul(a *twistPoint, scalar *big.Int) {
